@@ -30,7 +30,7 @@ def run(ck: Check):
     loaded = {"jsstr": [b'f("ab", "cd", "K", "e", "gh");\n', b"x = 'a' + \"bc\";\n'\\x41\\u1234';\n", b'"a""b""c"'],
               "attrs": [b'<a b="c" d e=f><g h=\'i\' j>\n', b"<x y z=1><w v u>"],
               "symbol": [b"a;b;c{d}e;\n", b"f(x);g[1]=2;\n"], "char": [b"abcdef", b"DDBEGIN\nxyz\nDDEND\n"],
-              "line": [b"DDBEGIN\na\nb\nc\nDDEND\n"]}
+              "line": [b"DDBEGIN\na\nb\nc\nDDEND\n", b"a\r\nb\r\nc\r\n", b"x\ry\rz\x0b\xc2\x85w"]}
     for atom, datas in loaded.items():
         for data in datas:
             for strategy in ("minimize", "minimize-around", "minimize-balanced"):
